@@ -1463,6 +1463,13 @@ func (e *Entry) Find(name string) *Entry {
 	if parts[0] == "" {
 		parts = parts[1:]
 		contextNode := e.Node
+		// A step whose prefix is declared nowhere in the module the
+		// path is written in names nothing.
+		for _, part := range parts[1:] {
+			if prefix, _ := getPrefix(part); prefix != "" && contextNode != nil && FindModuleByPrefix(contextNode, prefix) == nil {
+				return nil
+			}
+		}
 		for e.Parent != nil {
 			e = e.Parent
 		}
